@@ -44,7 +44,7 @@ Section Who.
     - intros m x a b _. split; auto.
     - intros m x w _. split; auto.
     - intros m x i r _. split; auto.
-    - intros m x _ _. split; auto.
+    - intros m x _ _ _. split; auto.
     - intros m x _ _. split; auto.
     - intros m x K _. split; [|auto]. intros B. unfold is_blank in B. rewrite K in B. discriminate.
     - intros m x _ _. split; auto.
@@ -94,7 +94,7 @@ Section Who.
     - intros m x a b _. repeat split; auto.
     - intros m x w _. repeat split; auto.
     - intros m x i r _. repeat split; auto.
-    - intros m x _ _. repeat split; auto.
+    - intros m x _ _ _. repeat split; auto.
     - intros m x H _. split; [auto|split; [auto|]]. intros _. destruct H as [H|H]; [now left|].
       destruct (completed x) eqn:Ec; [right; left; exact Ec|]. destruct (forced x) eqn:Ef; [right; right; left; reflexivity|].
       right. right. right. unfold W. cbn [negb andb] in H.
@@ -123,7 +123,7 @@ Section Who.
     - intros m x a b. split; auto.
     - intros m x w. split; auto.
     - intros m x i r. split; auto.
-    - intros m x H. split; [auto|]. intros _. destruct H as [H|[H1 H2]]; [auto|]. right. right. unfold C. now rewrite H1, H2.
+    - intros m x H _. split; [auto|]. intros _. destruct H as [H|[H1 H2]]; [auto|]. right. right. unfold C. now rewrite H1, H2.
     - intros m x _. split; auto.
     - intros m x _. split; auto.
     - intros m x _. split; auto.
